@@ -27,3 +27,14 @@ Definition refines (r : result json) (o : outcome) : Prop :=
   | OError => exists k, r = Err (EPatch k)
   | OTestFailed => r = Err (EPatch KPatchTest)
   end.
+
+(* the domain of the add-like operations: like std_pointer, except that the last token (which is
+   never resolved) is exempt from the extension test *)
+Definition std_parent (p : pointer) : Prop :=
+  Forall normal_part p /\ parent_outside_extensions (tokens p) = true.
+
+(* the parent the add-like operations write into is not an array (for an array parent the last
+   token is an index, and the extension spellings of an index - negative, '#'-prefixed - are
+   outside RFC 6902) *)
+Definition parent_not_array (ts : list ustr) (d : json) : Prop :=
+  forall xs, rfc_get (removelast ts) d <> Some (JArr xs).
